@@ -1,8 +1,8 @@
 /-
-Termination of the do-while of `MaxMin::maxmin_solve` at eps = 0, for systems of summing (SHARED) constraints:
-every pass of the body that starts with a non-empty light table fixes at least one more variable, so
-#variables + 1 passes are enough.  (For FATPIPE constraints the missing ingredient is the same as in Fair.lean:
-"a positive usage_ of a light FATPIPE constraint is attained by an unfixed element".)
+Termination of the do-while of `MaxMin::maxmin_solve` at eps = 0, for every well-formed system (SHARED and FATPIPE
+constraints, variable bounds): every pass of the body that starts with a non-empty light table fixes at least one more
+variable, so #variables + 1 passes are enough.  For a saturated FATPIPE constraint the variable to fix comes from
+`InvA` (Fat.lean): its positive usage_ is attained by an unfixed consumer.
 -/
 import SgVerif.Lmm.Fair
 namespace SgVerif.Lmm
@@ -90,9 +90,9 @@ theorem filter_len_lt (l : List Nat) (f f' : Nat → Bool) (hmono : ∀ w, f w =
         | true => simp; omega
         | false => simp; omega
 
-/-- a pass of the body that starts with a non-empty light table fixes one more variable (summing constraints) -/
-theorem round_progress (S : Sys) (hwf : WF S) (hsh : ∀ c ∈ S.active, (S.cnst c).fatpipe = false) (st : St)
-    (hR : RInv S st (satVarUpdate S st [])) (hl : st.light ≠ []) :
+/-- a pass of the body that starts with a non-empty light table fixes one more variable -/
+theorem round_progress (S : Sys) (hwf : WF S) (st : St)
+    (hR : RInv S st (satVarUpdate S st [])) (hA : InvA S st 0 []) (hl : st.light ≠ []) :
     ∃ u, (∃ c ∈ S.active, ∃ e ∈ (S.cnst c).elems, e.1 = u) ∧ st.fixed u = false ∧
       (round S 0 st (satVarUpdate S st [])).fixed u = true := by
   have hspec := satVarUpdate_spec S st
@@ -109,22 +109,31 @@ theorem round_progress (S : Sys) (hwf : WF S) (hsh : ∀ c ∈ S.active, (S.cnst
   have hcl := (hsat c hcs).1
   have hca := hR.l.li_act c hcl
   have hup := (hR.l.li_pos c hcl).2
-  have hK0u := hR.k.sh_use c hca (hsh c hca)
-  simp only [wOf_nil, mul_zero, sub_zero] at hK0u
-  rw [hK0u] at hup
-  unfold freeSum at hup
-  obtain ⟨e, he, hpos⟩ := sumBy_pos_exists _ _ hup
-  have hfe : st.fixed e.1 = false := by
-    cases hf : st.fixed e.1 with
-    | false => rfl
-    | true => simp [hf] at hpos
-  have hw : 0 < e.2 := by
-    simp only [hfe] at hpos
-    have hp := hwf.el_pen c hca e he
-    by_contra hn
-    have : e.2 / (S.var e.1).penalty ≤ 0 := div_nonpos_of_nonpos_of_nonneg (by linarith) (le_of_lt hp)
-    simp at hpos
-    linarith
+  obtain ⟨e, he, hw, hfe⟩ : ∃ e ∈ (S.cnst c).elems, 0 < e.2 ∧ st.fixed e.1 = false := by
+    cases hfp : (S.cnst c).fatpipe with
+    | true =>
+      obtain ⟨e, he, hw, _, h1⟩ := hA c hca hfp hup
+      rcases h1 with h1 | h1
+      · exact ⟨e, he, hw, h1⟩
+      · exact absurd h1.2 (by simp)
+    | false =>
+      have hK0u := hR.k.sh_use c hca hfp
+      simp only [wOf_nil, mul_zero, sub_zero] at hK0u
+      rw [hK0u] at hup
+      unfold freeSum at hup
+      obtain ⟨e, he, hpos⟩ := sumBy_pos_exists _ _ hup
+      have hfe : st.fixed e.1 = false := by
+        cases hf : st.fixed e.1 with
+        | false => rfl
+        | true => simp [hf] at hpos
+      have hw : 0 < e.2 := by
+        simp only [hfe] at hpos
+        have hp := hwf.el_pen c hca e he
+        by_contra hn
+        have : e.2 / (S.var e.1).penalty ≤ 0 := div_nonpos_of_nonpos_of_nonneg (by linarith) (le_of_lt hp)
+        simp at hpos
+        linarith
+      exact ⟨e, he, hw, hfe⟩
   have hesv : e.1 ∈ sv := hspec.2.2 c hcs e he hw hfe
   have hmb := minBound_spec S st.minUsage sv (fun v hv => (hR.sv_ok v hv).2)
   have hf := fixLoop_inv S hwf st.minUsage (minBound S st.minUsage sv) hm sv st hR.g hR.k hR.l hR.sv_ok hR.sv_nd
@@ -144,22 +153,23 @@ theorem round_progress (S : Sys) (hwf : WF S) (hsh : ∀ c ∈ S.active, (S.cnst
     rw [hr.2.2.2.2.1]
     exact (hsel u hu (Or.inr hatt)).1
 
-theorem loop_terminates (S : Sys) (hwf : WF S) (hsh : ∀ c ∈ S.active, (S.cnst c).fatpipe = false) (nv : Nat)
+theorem loop_terminates (S : Sys) (hwf : WF S) (nv : Nat)
     (hnv : ∀ c ∈ S.active, ∀ e ∈ (S.cnst c).elems, e.1 < nv) :
-    ∀ (fuel : Nat) (st : St), RInv S st (satVarUpdate S st []) → unfixedCount nv st.fixed + 1 ≤ fuel →
+    ∀ (fuel : Nat) (st : St), RInv S st (satVarUpdate S st []) → InvA S st 0 [] → unfixedCount nv st.fixed + 1 ≤ fuel →
       (loop S 0 fuel st (satVarUpdate S st [])).isSome = true := by
   intro fuel
   induction fuel with
-  | zero => intro st _ h; omega
+  | zero => intro st _ _ h; omega
   | succ n ih =>
-    intro st hR hfuel
+    intro st hR hA hfuel
     rw [loop]
     have hr := round_inv S hwf st _ hR
+    have hrA := round_invA S hwf st _ hR hA
     have hfr := round_frame S hwf st _ hR
     split
     · simp
     · rename_i hne
-      apply ih _ hr
+      apply ih _ hr hrA
       have hl : st.light ≠ [] := by
         intro hl0
         -- an empty light table stays empty: no saturated constraint, no saturated variable, nothing happens
@@ -173,24 +183,31 @@ theorem loop_terminates (S : Sys) (hwf : WF S) (hsh : ∀ c ∈ S.active, (S.cns
         rw [hsv0, fixLoop_nil]
         have hres := reselect_inv S hwf st.minUsage st hR.g hR.k hR.l
         rw [hres.2.2.2.2.2.2.1, hl0]; rfl
-      obtain ⟨u, ⟨c, hc, e, he, heu⟩, hu0, hu1⟩ := round_progress S hwf hsh st hR hl
+      obtain ⟨u, ⟨c, hc, e, he, heu⟩, hu0, hu1⟩ := round_progress S hwf st hR hA hl
       have hlt := filter_len_lt (List.range nv) st.fixed (round S 0 st (satVarUpdate S st [])).fixed
         (fun w hw => (hfr.2 w hw).1) ⟨u, by rw [List.mem_range, ← heu]; exact hnv c hc e he, hu0, hu1⟩
       unfold unfixedCount at hfuel ⊢
       omega
 
-/-- **C15 `maxmin_terminates`, summing constraints.**  With `nv` an upper bound of the variable indices, fuel
-`nv + 1` (hence also #variables + #constraints + 1) is enough: the model never runs out of fuel. -/
-theorem maxmin_terminates_shared (S : Sys) (hwf : WF S) (hsh : ∀ c ∈ S.active, (S.cnst c).fatpipe = false) (nv : Nat)
+/-- **C15 `maxmin_terminates`.**  Every well-formed system (SHARED and FATPIPE constraints, variable bounds).  With `nv`
+an upper bound of the variable indices, fuel `nv + 1` (hence also #variables + #constraints + 1) is enough: the model
+never runs out of fuel. -/
+theorem maxmin_terminates_wf (S : Sys) (hwf : WF S) (nv : Nat)
     (hnv : ∀ c ∈ S.active, ∀ e ∈ (S.cnst c).elems, e.1 < nv) (val0 : Nat → Rat) (fuel : Nat) (hfuel : nv + 1 ≤ fuel) :
     (maxminSolve S 0 fuel val0).isSome = true := by
   unfold maxminSolve
   have hi := init_rinv S hwf val0
-  apply loop_terminates S hwf hsh nv hnv fuel _ hi.1
+  apply loop_terminates S hwf nv hnv fuel _ hi.1 (init_invA S hwf val0)
   have : unfixedCount nv (initAll S 0 val0).fixed ≤ nv := by
     unfold unfixedCount
     calc ((List.range nv).filter _).length ≤ (List.range nv).length := List.length_filter_le _ _
       _ = nv := List.length_range
   omega
+
+/-- the first-pass statement (summing constraints only), now a corollary -/
+theorem maxmin_terminates_shared (S : Sys) (hwf : WF S) (_hsh : ∀ c ∈ S.active, (S.cnst c).fatpipe = false) (nv : Nat)
+    (hnv : ∀ c ∈ S.active, ∀ e ∈ (S.cnst c).elems, e.1 < nv) (val0 : Nat → Rat) (fuel : Nat) (hfuel : nv + 1 ≤ fuel) :
+    (maxminSolve S 0 fuel val0).isSome = true :=
+  maxmin_terminates_wf S hwf nv hnv val0 fuel hfuel
 
 end SgVerif.Lmm
